@@ -51,9 +51,9 @@ TEXT_TYPES = (rc.VISIBLE_STRING, rc.UNICODE_STRING)
 LETTERS = "abcdefghijklmnopqrstuvwxyzABCDEFGHIJKLMNOPQRSTUVWXYZ"
 DIGITS = "0123456789"
 # names: letters, digits, blank and _-%=()/: (DESIGN C08); '.' is added separately
-NAME_ALPHABET = LETTERS + DIGITS + "    " + "_-%=()/:"
+NAME_ALPHABET = LETTERS + DIGITS + "    " + "_-%=()/:#"
 # free text (string defaults, unit, description, comments, device info strings)
-TEXT_ALPHABET = LETTERS + DIGITS + "   " + "_-%=()/:.,!?+*<>@[]{}|~^&'\""
+TEXT_ALPHABET = LETTERS + DIGITS + "   " + "_-%=()/:#.,!?+*<>@[]{}|~^&'\""
 STORAGE = ["RAM", "ROM", "PERSIST_COMM", "PERSIST_APP", "PERSIST_MFR"]
 
 DEVINFO_STR = ["VendorName", "ProductName", "OrderCode"]
@@ -585,7 +585,7 @@ _FACTOR = st.sampled_from([0.1, 0.001, 10.0, 2.5, -1.0, 1e-06, 3.0, 0.5, 1000.0]
 _KIND = st.sampled_from(["var", "var", "var", "domain", "array", "record", "record", "compact", "compact"])
 _SMALL = {n: st.integers(0, n) for n in (1, 3, 7, 15)}
 _BOOL = st.booleans()
-_N_NAMED = st.integers(1, 9)
+_N_NAMED = st.one_of(st.integers(1, 9), st.integers(1, 20))
 _N_UNNAMED = st.one_of(st.integers(1, 20), st.sampled_from([1, 2, 16, 127, 254]))
 _SUBS = st.integers(1, 0xFE)
 
